@@ -84,6 +84,7 @@ def run(chk):
     )
     chk.not_decided = "the exact delivered message sequence versus a reference decoder; the memory bound as a number."
     chk.explanation += " Also decided: the message opcode is reset on every path that completes a fragmented message; the stored masking key is read only under the current frame's own mask bit. After the defect hunt: required rejections carry no unexplained extra guard; back-pressure inside an incomplete frame can be lifted by a waiting reader; no empty fragment is retained."
+    chk.explanation += " Second hunt: the early size test and the post-inflate test draw the limit at the same size; EOF does not erase a recorded violation; inflate failures carry a close code; every queued message weighs at least one unit; input after a reader error is not hoarded by the client protocol."
     fd = repo.func(MOD, f"{WR}._feed_data")
     hf = repo.func(MOD, f"{WR}._handle_frame")
     R1 = ws_raises(fd, raw=True)
